@@ -2587,11 +2587,13 @@ UNITS = {
                          # the drivers, once per kind of `data` (the stand-ins Graph / Dataset of translate/stubs/rdflib_containers.py, or a generator):
                          # the unsuffixed names take a Graph (triples) / a Dataset (quads, graphs)
                          "static_isinstance": [("Graph", "Graph", True), ("Graph", "Dataset", False), ("Dataset", "Graph", True), ("Dataset", "Dataset", True)],
-                         "variants": {"namespace_declarations_ds": {"of": "namespace_declarations"},
+                         "variants": {"namespace_declarations_ds": {"of": "namespace_declarations"}, "guess_options_ds": {"of": "guess_options"},
                                       "triples_stream_frames_ds": {"of": "triples_stream_frames"}, "triples_stream_frames_gen": {"of": "triples_stream_frames"},
                                       "quads_stream_frames_gen": {"of": "quads_stream_frames"},
                                       },
                          "functions": {
+                             "guess_options": {"param_types": {"sink": "Graph"}},
+                             "guess_options_ds": {"param_types": {"sink": "Dataset"}},
                              "namespace_declarations": {"param_types": {"store": "Graph", "stream": "Stream"}},
                              "namespace_declarations_ds": {"param_types": {"store": "Dataset", "stream": "Stream"}},
                              "triples_stream_frames": {"param_types": {"data": "Graph", "stream": "Stream"}},
@@ -2617,7 +2619,7 @@ UNITS = {
                              {"stub_class": "Dataset", "src": "rdflib_containers.py", "methods": ["__init__", "graphs", "quads", "namespaces"]},
                              {"extend": "TermEncoder", "subclass": "RDFLibTermEncoder", "base_src": "pyjelly/serialize/encode.py",
                               "methods": ["encode_spo", "encode_graph"], "inline": ["get_iri_field", "get_literal_field", "get_triple_field"]},
-                             "namespace_declarations", "triples_stream_frames", "quads_stream_frames", "graphs_stream_frames", "stream_frames"]},
+                             "namespace_declarations", "triples_stream_frames", "quads_stream_frames", "graphs_stream_frames", "stream_frames", "guess_options"]},
     # the rdflib integration's adapters and flat parser over rdflib's term objects as SPECIFIED (URIRef / BNode: the string given;
     # Literal: the specified constructor rdflib_Literal, dyn.py) and the tuple classes Triple / Quad / Prefix of the file itself
     "rdflib_parse": {"src": "pyjelly/integrations/rdflib/parse.py", "ctx": True, "uses": ["lookup_dec", "options", "decode"],
